@@ -7,6 +7,12 @@ CHECKS = {
  "C09": dict(cat="proof", tech="Lean 4 theorems over a scanner model whose regexes/tables are regenerated from c_lexer.py + differential correspondence",
    text="Lean theorems (termination/never-stuck for every text and every well-formed table; table obligations against C99 6.4.1/6.4.6 re-checked by the kernel on the regenerated tables) about an executable scanner model whose regexes are machine-translated from the compiled patterns of c_lexer.py on every run; the model is tied to the real CLexer by exhaustive short-string and random layout correspondence.",
    note="Trusted: Lean kernel; axioms propext/Classical.choice/Quot.sound; tools/extract.py regex translation; PycModel.Regex as a model of Python's re (backtracking order, lookahead, $); harness. Position theorems speak about the model.", ref="§6 C09"),
+ "C02": dict(cat="proof", tech="Lean 4 spec of C99 expression grammar + table obligations on regenerated precedence tables + spec-vs-code and model-vs-code correspondence",
+   text="The C99 expression grammar, its renderer and the documented AST are a Lean specification (Spec/Expr.lean); kernel-checked obligations tie the precedence / assignment-operator tables regenerated from c_parser.py to C99's ten levels and to the tables of the Lean parser model; the real parser is compared with the specification on every tree with <=2 (thorough: <=3) operator nodes x 3 parenthesisations x 10 contexts and with the Lean parser model.",
+   note="The round-trip theorem over the parser model (C02.Full) is work in progress: what is kernel-checked today are the table obligations; the universal claim for all trees rests on the exhaustive/differential comparison with the Lean spec. Trusted: Lean kernel, Spec/Expr.lean, extractor, harness.", ref="§6 C02"),
+ "C06": dict(cat="proof", tech="Lean 4 theorems on the lexer/error channel of the parser model + exhaustive token-sequence correspondence of real parser vs Lean model",
+   text="Theorems: the scanner model is total and never spins on any text; pulling a token never raises anything but the lexer's own error; lexer errors always surface with a file:line:col prefix. The complete parser model (every production, every Python crash site explicit) is compared with the real parser on all <=2 (thorough <=3) token sequences over a 66-token alphabet x 9 prefixes, reduced-alphabet sequences of length 3 (4), token mutants of the corpus and character noise; any escape other than ParseError-with-location is a violation.",
+   note="Whole-parser crash-freedom (C06.Full) is stated in Lean but proved only for the lexer side; the rest is differential. RecursionError tolerated. Trusted: Lean kernel, extractor, harness.", ref="§6 C06"),
 }
 NOT_YET = {}
 
